@@ -16,7 +16,11 @@ class Deadlock(Exception):
 
 class Sched:
     def __init__(self, codes, preempt=(), first=0, watchdog=20.0, max_steps=200000):
-        self.codes = set(codes)
+        # codes: iterable of code objects (all lines) or dict code -> set(linenos) | None
+        if isinstance(codes, dict):
+            self.codes = dict(codes)
+        else:
+            self.codes = {c: None for c in codes}
         self.preempt = set(preempt)
         self.first = first
         self.watchdog = watchdog
@@ -41,7 +45,9 @@ class Sched:
 
     def _local_trace(self, frame, event, arg):
         if event == "line":
-            self.yield_point(frame.f_lineno)
+            lines = self.codes.get(frame.f_code)
+            if lines is None or frame.f_lineno in lines:
+                self.yield_point(frame.f_lineno)
         return self._local_trace
 
     # -- scheduling -----------------------------------------------------------------------------
@@ -160,3 +166,14 @@ def schedules_upto(total, bound):
     for d in range(bound + 1):
         for c in itertools.combinations(range(total), d):
             yield c
+
+
+def lines_matching(code, *needles):
+    """Line numbers of `code` whose source text contains one of the needles (shared-state accesses)."""
+    import inspect
+    src, first = inspect.getsourcelines(code)
+    out = set()
+    for i, line in enumerate(src):
+        if any(n in line for n in needles):
+            out.add(first + i)
+    return out
